@@ -1011,12 +1011,27 @@ Proof. unfold del_name. apply filter_app. Qed.
 Lemma del_name_ldel m n : del_name (ldel m n) = ldel (del_name m) n.
 Proof. unfold del_name, ldel. apply filter_comm. Qed.
 
+Lemma del_name_linsert n v l :
+  del_name (linsert n v l) = if (n =? 0)%N then del_name l else linsert n v (del_name l).
+Proof.
+  induction l as [|[k x] r IH].
+  - unfold del_name. simpl. destruct (n =? 0)%N; reflexivity.
+  - cbn [linsert]. destruct (N.ltb_spec n k) as [Hlt|Hge].
+    + unfold del_name. cbn [filter fst].
+      destruct (N.eqb_spec n 0) as [->|Hn]; destruct (N.eqb_spec k 0) as [->|Hk]; cbn [negb]; try lia.
+      * reflexivity.
+      * cbn [linsert]. destruct (N.ltb_spec n k); [reflexivity|lia].
+    + unfold del_name in *. cbn [filter fst]. rewrite IH.
+      destruct (N.eqb_spec n 0) as [->|Hn]; destruct (N.eqb_spec k 0) as [->|Hk]; cbn [negb]; try reflexivity; try lia.
+      cbn [linsert]. destruct (N.ltb_spec n k); [lia|reflexivity].
+Qed.
+
 Lemma del_name_include incl rm : forall m m', del_name m = del_name m' ->
   del_name (include_labels incl m rm) = del_name (include_labels incl m' rm).
 Proof.
   unfold include_labels. induction incl as [|n incl IH]; intros m m' H; simpl; [exact H|].
   apply IH. destruct (lookup rm n) as [v|].
-  - unfold lset. rewrite !del_name_app, !del_name_ldel, H. reflexivity.
+  - unfold lset. rewrite !del_name_linsert, !del_name_ldel, H. reflexivity.
   - rewrite !del_name_ldel, H. reflexivity.
 Qed.
 
